@@ -201,13 +201,20 @@ def _eval_dispatch(case):
                     gb, wb = b.b_qcd(k, nf), f(nf) / b.beta_qcd_as2(nf)
                     if gb != wb:
                         res.fail(f"beta.b_qcd/k={k}", f"b_qcd({k},{nf}) = {gb!r} but {f.__name__}/beta0 = {wb!r}")
+                else:
+                    gb = b.b_qcd(k, nf)  # the leading entry of the b-vector of the expanded couplings
+                    if gb != 1.0:
+                        res.fail(f"beta.b_qcd/k={k}", f"b_qcd({k},{nf}) = {gb!r}: beta0/beta0 must be exactly 1.0")
         for k in [(6, 0), (3, 1), (1, 0), (2, 2), (0, 2)]:
-            try:
-                v = b.beta_qcd(k, 4)
-                res.outcome = "unimplemented-key-returns"
-                res.info = {"silent": [k, v]}
-            except ValueError:
-                refused += 1
+            for nf in NFS:
+                try:
+                    v = b.beta_qcd(k, nf)
+                except ValueError:
+                    refused += 1
+                    continue
+                # no published coefficient is implemented under this key: any number handed out is not "the published value"
+                # (e.g. a silent 0.0 truncates the RGE)
+                res.fail("beta.beta_qcd/unimplemented-key-accepted", f"beta_qcd({k},{nf}) returns {v!r}; eko implements no coefficient for this key, it has to refuse (ValueError)")
     elif which == "beta_qed":
         for nl in NLS:
             table = {
@@ -225,11 +232,19 @@ def _eval_dispatch(case):
                         gb, wb = b.b_qed(k, nf, nl), f(nf) / b.beta_qed_aem2(nf, nl)
                         if gb != wb:
                             res.fail(f"beta.b_qed/k={k}", f"b_qed({k},{nf},{nl}) = {gb!r} but ratio = {wb!r}")
+                    else:
+                        gb = b.b_qed(k, nf, nl)
+                        if gb != 1.0:
+                            res.fail(f"beta.b_qed/k={k}", f"b_qed({k},{nf},{nl}) = {gb!r}: beta0/beta0 must be exactly 1.0")
         for k in [(0, 4), (2, 2), (2, 0), (1, 3)]:
-            try:
-                b.beta_qed(k, 4, 3)
-            except ValueError:
-                refused += 1
+            for nl in NLS:
+                for nf in NFS:
+                    try:
+                        v = b.beta_qed(k, nf, nl)
+                    except ValueError:
+                        refused += 1
+                        continue
+                    res.fail("beta.beta_qed/unimplemented-key-accepted", f"beta_qed({k},{nf},{nl}) returns {v!r}; eko implements no coefficient for this key, it has to refuse (ValueError)")
     elif which == "gamma":
         table = {1: lambda nf: g.gamma_qcd_as1(), 2: g.gamma_qcd_as2, 3: g.gamma_qcd_as3, 4: g.gamma_qcd_as4}
         for k, f in table.items():
@@ -238,11 +253,14 @@ def _eval_dispatch(case):
                 n += 1
                 if got != want:
                     res.fail(f"gamma.gamma/order={k}", f"gamma({k},{nf}) = {got!r} but gamma_qcd_as{k}({nf}) = {want!r}")
-        for k in [0, 5]:
-            try:
-                g.gamma(k, 4)
-            except ValueError:
-                refused += 1
+        for k in [0, 5, 6]:
+            for nf in NFS:
+                try:
+                    v = g.gamma(k, nf)
+                except ValueError:
+                    refused += 1
+                    continue
+                res.fail("gamma.gamma/unimplemented-order-accepted", f"gamma({k},{nf}) returns {v!r}; eko implements no mass anomalous dimension at this order, it has to refuse (ValueError)")
     if res.outcome == "ok":
         res.outcome = f"dispatch-ok/refused={refused}"
     if res.info is None:
@@ -308,7 +326,9 @@ def run(ctx):
         "evaluated at every nf 0-6 (x nl 2,3 where it takes nl): the polynomial through nf=0..deg is "
         "reconstructed in exact rational arithmetic and each monomial coefficient compared with the "
         "literature, the remaining nf must lie on that polynomial (=> equality as polynomials); QED values "
-        "compared one by one; dispatchers must return bit-identical numbers to the functions. identical in "
+        "compared one by one; dispatchers must return bit-identical numbers to the functions, b_qcd((2,0)) and b_qed((0,2)) "
+        "exactly 1.0, and refuse (ValueError) every key without an implemented coefficient: beta_qcd 5 keys x nf 0-6, beta_qed 4 "
+        "keys x nf 0-6 x nl 2,3, gamma orders 0,5,6 x nf 0-6. identical in "
         "quick and thorough (the set is finite and complete). non-trivial = all"
     )
     ctx.assumptions += [
